@@ -130,6 +130,11 @@ mod harnesses {
     // @harness c15_mean_double props=C15 tier=thorough kind=bounded flags="--no-overflow-checks" bound="2-D 2x2, k = 1" what="mean_inplace 2-D" timeout=1200
     elementwise!(c15_mean_double, 5u8, 2u8, 6);
 
+    // @harness c15_mean_quadruple props=C15 tier=quick kind=bounded flags="--no-overflow-checks" bound="4-D 1x1x2x2, k = 1" what="mean_inplace 4-D" timeout=1500
+    elementwise!(c15_mean_quadruple, 5u8, 4u8, 6);
+    // @harness c15_mean_triple props=C15 tier=thorough kind=bounded flags="--no-overflow-checks" bound="3-D 1x2x2, k = 1" what="mean_inplace 3-D" timeout=1500
+    elementwise!(c15_mean_triple, 5u8, 3u8, 6);
+
     // shape-mismatched operands are refused
     macro_rules! mismatch {
         ($name:ident, $op:expr) => {
@@ -274,7 +279,7 @@ mod harnesses {
             fn $name() {
                 let seq = v1($c * $h * $w);
                 let g = Tensor::single(seq.clone()).get_triple(&Shape::Triple($c, $h, $w));
-                assert!(g.len() == $c);
+                assert!(g.len() == $c && g[0].len() == $h && g[0][0].len() == $w);
                 assert!(same_seq(&seq_of(&g), &seq));
                 let back = Tensor::single(seq.clone()).reshape(Shape::Triple($c, $h, $w));
                 assert!(back.shape == Shape::Triple($c, $h, $w) && shape_matches(&back));
